@@ -91,3 +91,16 @@ package server
 //@   ghost errReplied bool = arbitrary()
 //@   modifies ghost errReplied
 //@   ensures errReplied
+
+// ---- goroutine/parent races on captured variables (C11), structural contracts ----
+// Each function below starts goroutines; the only obligation generated for it is that no local variable
+// written by a goroutine it starts is accessed by the function afterwards (#gorace...). The bodies are not
+// executed symbolically.
+//@ func Serve
+//@   prop C11
+//@   structural
+
+//@ func instanceSelector
+//@   prop C11
+//@   structural
+
